@@ -987,20 +987,6 @@ theorem SRepr.negate_value (W : Nat) (r : SRepr) : r.negate.value W = - r.value 
 theorem SRepr.negate_wf (W : Nat) (r : SRepr) (h : r.WF W) : r.negate.WF W :=
   withSign_wf W r.mag _ h.1
 
-theorem SRepr.ofInt_value (W : Nat) (hW : 1 ≤ W) (i : Int) : (SRepr.ofInt W i).value W = i := by
-  unfold SRepr.ofInt SRepr.value
-  simp only [ofNat_value W hW]
-  by_cases h : i < 0
-  · simp only [h, decide_true, if_true]; omega
-  · simp only [h, decide_false]; simp; omega
-
-theorem SRepr.ofInt_wf (W : Nat) (hW : 1 ≤ W) (i : Int) : (SRepr.ofInt W i).WF W := by
-  refine ⟨ofNat_canon W hW _, ?_⟩
-  intro h
-  simp only [SRepr.ofInt, decide_eq_true_eq] at h
-  simp only [SRepr.ofInt, ofNat_value W hW]
-  omega
-
 -- ------------------------------------------------------------------ sub_signed
 
 theorem subDwordSigned_spec (W : Nat) (a b : Nat) (ha : a < 2 ^ (2 * W)) (hb : b < 2 ^ (2 * W)) :
@@ -1009,10 +995,10 @@ theorem subDwordSigned_spec (W : Nat) (a b : Nat) (ha : a < 2 ^ (2 * W)) (hb : b
   split
   · rename_i h
     refine ⟨?_, withSign_wf W _ _ (show a - b < 2 ^ (2 * W) by omega)⟩
-    rw [withSign_value]; simp only [TRepr.value_small]; simp; omega
+    rw [withSign_value]; simp only [TRepr.value_small]; simp <;> omega
   · rename_i h
     refine ⟨?_, withSign_wf W _ _ (show b - a < 2 ^ (2 * W) by omega)⟩
-    rw [withSign_value]; simp only [TRepr.value_small]; simp; omega
+    rw [withSign_value]; simp only [TRepr.value_small]; simp <;> omega
 
 theorem subLargeSigned_spec (W : Nat) (lhs rhs : List Nat) (hl : (TRepr.large lhs).Canon W)
     (hr : (TRepr.large rhs).Canon W) :
@@ -1029,8 +1015,8 @@ theorem subLargeSigned_spec (W : Nat) (lhs rhs : List Nat) (hl : (TRepr.large lh
     refine ⟨?_, withSign_wf W _ _ (fromBuffer_canon W r s2)⟩
     rw [withSign_value, fromBuffer_value]
     cases neg with
-    | false => have := s3 rfl; simp; omega
-    | true => have := (s4 rfl).1; simp; omega
+    | false => have := s3 rfl; simp <;> omega
+    | true => have := (s4 rfl).1; simp <;> omega
   · rename_i hlen
     have hlt : val W lhs < val W rhs :=
       val_lt_of_length_lt W lhs rhs hl.large_words hr.large_ne_nil hr.2.2 (by omega)
@@ -1039,7 +1025,7 @@ theorem subLargeSigned_spec (W : Nat) (lhs rhs : List Nat) (hl : (TRepr.large lh
     rw [subLargeRefVal_eq, hm1]
     simp only
     refine ⟨?_, withSign_wf W _ _ hm3⟩
-    rw [withSign_value]; simp; omega
+    rw [withSign_value]; simp <;> omega
 
 theorem TRepr.subSigned_spec (W : Nat) (a b : TRepr) (form : Nat) (ha : a.Canon W)
     (hb : b.Canon W) :
@@ -1055,7 +1041,7 @@ theorem TRepr.subSigned_spec (W : Nat) (a b : TRepr) (form : Nat) (ha : a.Canon 
       refine ⟨?_, SRepr.negate_wf W _ (withSign_wf W _ _ hs.2.2)⟩
       rw [SRepr.negate_value, withSign_value]
       have := hs.2.1
-      simp; omega
+      simp <;> omega
   | large ws =>
     cases b with
     | small y =>
@@ -1064,7 +1050,7 @@ theorem TRepr.subSigned_spec (W : Nat) (a b : TRepr) (form : Nat) (ha : a.Canon 
       refine ⟨?_, withSign_wf W _ _ hs.2.2⟩
       rw [withSign_value]
       have := hs.2.1
-      simp; omega
+      simp <;> omega
     | large w1 =>
       have h01 := subLargeSigned_spec W ws w1 ha hb
       have h10 := subLargeSigned_spec W w1 ws hb ha
